@@ -10,7 +10,8 @@ pending batches, the `Counter`, the quantile indices or the padding arithmetic.
 * The reported length is the number of batches delivered.
 * A context window is `feat[clamp(frame - left + i, 0, T - 1)]` for `i = 0 .. left + right`.
 * Collation: cutting row `n` of the padded batch back to its reported size gives the
-  original sequence, everything beyond holds the pad value.
+  original sequence, everything beyond holds the pad value; a time-first batch is read column
+  by column (`columns`); the optional sort is the stable descending one (`IsStableDescSort`).
 
 Mathlib-free: the driver evaluates these as the oracle.
 -/
@@ -51,6 +52,19 @@ def cutBack {β} (rows : List (List β)) (sizes : List Nat) : List (List β) :=
 /-- Every cell beyond the reported size holds the pad value. -/
 def padCellsOk {β} [DecidableEq β] (pad : β) (rows : List (List β)) (sizes : List Nat) : Bool :=
   (List.zipWith (fun r n => (r.drop n).all (fun c => decide (c = pad))) rows sizes).all id
+
+/-- Column `n` of a time-first batch `[t][n]` (the cells of batch entry `n` along time). -/
+def column {β} (n : Nat) (tf : List (List β)) : List β := tf.filterMap (fun row => row[n]?)
+
+/-- A time-first batch of `N` entries read entry by entry: `columns N tf = [n][t]`. -/
+def columns {β} (N : Nat) (tf : List (List β)) : List (List β) :=
+  (List.range N).map (fun n => column n tf)
+
+/-- `s` lists its elements by non-increasing `key` and keeps, within every class of equal `key`,
+the order those elements have in `l`: the specification of a STABLE descending sort of `l`. -/
+def IsStableDescSort {α} (key : α → Nat) (l s : List α) : Prop :=
+  s.Pairwise (fun a b => key b ≤ key a) ∧
+  ∀ k : Nat, s.filter (fun a => key a == k) = l.filter (fun a => key a == k)
 
 /-- Split a concatenation back by the reported sizes. -/
 def splitBySizes {β} : List Nat → List β → List (List β)
